@@ -5,6 +5,7 @@
 import NiVerif.Proofs.ConvLemmas
 import NiVerif.Model.Mixed
 import NiVerif.Gen.TimeDeltaFloat
+import NiVerif.Gen.Conversion
 
 namespace Props.C04
 open Gen.TimeDelta Model.Conv
@@ -301,5 +302,73 @@ theorem float_to_ticks_exact (x : Dyad) (h : x.exp ≤ 64) :
 -- 0.75 ticks rounds to 1 tick (truncation would give 0); 0.5 ticks rounds to the even 0; 1.5 ticks to 2
 example : Gen.TimeDeltaFloat.to_ticks_float ⟨3, 66⟩ = 1 ∧ Gen.TimeDeltaFloat.to_ticks_float ⟨1, 65⟩ = 0
     ∧ Gen.TimeDeltaFloat.to_ticks_float ⟨3, 65⟩ = 2 ∧ Gen.TimeDeltaFloat.to_ticks_float ⟨-3, 1⟩ = -(3 * 2 ^ 63) := by decide +kernel
+
+/-! ### T24: the dispatch of `convert_timedelta` as regenerated from `nitypes/time/_conversion.py` -/
+
+section T24
+open Gen.Conversion Gen.TimeDelta Model.Conv Proofs.Conv
+
+/-- units per second of each family: ticks, microseconds, yoctoseconds -/
+def unitsPerSecond : Fam3 → Int | .bt => T | .dt => M | .ht => Y
+
+/-- the values each family can hold -/
+def famInRange : Fam3 → Int → Prop
+  | .bt, t => InI128 t
+  | .dt, us => Py.dtTdInRange us
+  | .ht, ys => Py.htTdInRange ys
+
+/-- **C04's headline over the dispatch regenerated from `nitypes/time/_conversion.py`**: for all nine (destination, source) pairs and
+    every source value, a conversion that succeeds differs from the exact value by strictly less than one unit of the coarser of the
+    two resolutions (`x / U_src − y / U_dst`, cross-multiplied) -/
+theorem gen_convert_timedelta_error (d s : Fam3) (x y : Int) (hx : famInRange s x)
+    (h : Gen.Conversion.convert_timedelta d s x = .ok y) :
+    (x * unitsPerSecond d - y * unitsPerSecond s).natAbs < (max (unitsPerSecond s) (unitsPerSecond d)).natAbs := by
+  cases d <;> cases s <;> simp only [Gen.Conversion.convert_timedelta, unitsPerSecond, famInRange] at h hx ⊢
+  · -- bt <- bt
+    injection h with h; subst h; unfold T; omega
+  · -- bt <- dt
+    have := dt_to_bt_floor x y hx h
+    unfold T M at *; omega
+  · -- bt <- ht
+    have hb := ht_to_bt_never_overflows x hx
+    rw [hb] at h; injection h with h; subst h
+    have := ht_to_bt_nearest x
+    unfold T Y at *; omega
+  · -- dt <- bt
+    have := bt_to_dt_floor x y h
+    unfold T M at *; omega
+  · injection h with h; subst h; unfold M; omega
+  · -- dt <- ht
+    have := ht_to_dt_trunc x y h
+    unfold M Y at *; omega
+  · -- ht <- bt
+    have := bt_to_ht_floor x y h
+    unfold T Y at *; omega
+  · -- ht <- dt
+    have := (dt_ht_dt x hx).1
+    rw [this] at h; injection h with h; subst h
+    unfold M Y; omega
+  · injection h with h; subst h; unfold Y; omega
+
+/-- same-type requests return the value itself -/
+theorem gen_convert_same_type (f : Fam3) (x : Int) : Gen.Conversion.convert_timedelta f f x = .ok x := by cases f <;> rfl
+
+/-- the two identities of the property over the generated dispatch: bintime → hightime → bintime and datetime → hightime → datetime -/
+theorem gen_convert_round_trips (x y : Int) :
+    (Gen.Conversion.convert_timedelta .ht .bt x = .ok y → Gen.Conversion.convert_timedelta .bt .ht y = .ok x)
+    ∧ (Py.dtTdInRange x → ∃ z, Gen.Conversion.convert_timedelta .ht .dt x = .ok z ∧ Gen.Conversion.convert_timedelta .dt .ht z = .ok x) := by
+  constructor
+  · intro h
+    simp only [Gen.Conversion.convert_timedelta] at h ⊢
+    have hr : Py.htTdInRange y := by
+      have ht := bt_to_ht_total x
+      rw [h] at ht
+      split at ht
+      · rename_i hin; injection ht with ht; rw [ht]; exact hin
+      · cases ht
+    rw [ht_to_bt_never_overflows y hr, bt_ht_bt x y h]
+  · intro hx
+    exact ⟨_, (dt_ht_dt x hx).1, (dt_ht_dt x hx).2⟩
+end T24
 
 end Props.C04
